@@ -114,11 +114,33 @@ func (g *Gen) fieldArr(t types.Type, name string) (arr string, fty types.Type, o
 func (g *Gen) selectField(h *Heap, base Val, name string) Val {
 	arr, fty, ok := g.fieldArr(base.Ty, name)
 	if !ok {
+		// promoted field of an embedded struct
+		if stt, _ := g.structOf(base.Ty); stt != nil {
+			for i := 0; i < stt.NumFields(); i++ {
+				fl := stt.Field(i)
+				if !fl.Embedded() {
+					continue
+				}
+				et := fl.Type()
+				if est, _ := g.structOf(et); est != nil {
+					for j := 0; j < est.NumFields(); j++ {
+						if est.Field(j).Name() == name {
+							return g.selectField(h, g.selectField(h, base, fl.Name()), name)
+						}
+					}
+				}
+			}
+		}
 		trFail("no field %s on %s", name, base.Ty)
 	}
 	idx := base.T
 	if sortOf(base.Ty) == "Iface" {
 		idx = "(i-val " + base.T + ")"
+	}
+	if _, isStruct := fty.Underlying().(*types.Struct); isStruct && strings.HasPrefix(arr, "F!") {
+		// nested struct by value: addressed through a derived reference (as FieldAddr does)
+		_, bt := g.structOf(base.Ty)
+		return Val{T: fmt.Sprintf("(fref %s %d)", idx, g.fieldID(g.W.typeName(bt), name)), Ty: fty}
 	}
 	s := sortOf(fty)
 	return Val{T: fmt.Sprintf("(select %s %s)", g.arr(h, arr, s), idx), Ty: fty,
@@ -296,7 +318,23 @@ func (g *Gen) tr(e Expr, env *Env) Val {
 		if x.Forall {
 			q = "forall"
 		}
-		return Val{T: fmt.Sprintf("(%s ((%s %s)) %s)", q, bv, sortOf(vt), body.T), Ty: tyBool}
+		res := fmt.Sprintf("(%s ((%s %s)) %s)", q, bv, sortOf(vt), body.T)
+		if x.Witness != nil {
+			// instantiate with the hinted witness where it can be evaluated at this program point
+			func() {
+				defer func() {
+					if r := recover(); r != nil {
+						if _, ok := r.(trError); !ok {
+							panic(r)
+						}
+					}
+				}()
+				w := g.tr(x.Witness, env)
+				inst := g.tr(x.Body, env.bind(x.Var, Val{T: w.T, Ty: vt}))
+				res = or(inst.T, res)
+			}()
+		}
+		return Val{T: res, Ty: tyBool}
 	case EBin:
 		return g.trBin(x, env)
 	case ECall:
@@ -568,6 +606,13 @@ func (g *Gen) trCall(x ECall, env *Env) Val {
 		return Val{T: fmt.Sprintf("(select %s %s)", g.arr(env.heap, "G!chan!closed", "Bool"), v.T), Ty: tyBool}
 	case "arrOf":
 		return Val{T: "(s-arr " + arg(0).T + ")", Ty: tyInt}
+	case "elemsOf":
+		v := arg(0)
+		sl, ok := v.Ty.Underlying().(*types.Slice)
+		if !ok || sortOf(sl.Elem()) != "Int" {
+			trFail("elemsOf needs a slice of integers")
+		}
+		return Val{T: fmt.Sprintf("(select %s (s-arr %s))", g.arr(env.heap, elemArrName("Int"), "(Array Int Int)"), v.T), Ty: tyIntArr}
 	case "offOf":
 		return Val{T: "(s-off " + arg(0).T + ")", Ty: tyInt}
 	case "sameSlice":
